@@ -24,6 +24,7 @@ def rx_prefix_bytes(a):
 
 class C06(PropBase):
     id = 'C06'
+    address_change = 0.15
     rx_only_gaps = 0.1
     partial_passes = 0.25
     rx_only_passes = 0.4
